@@ -127,6 +127,24 @@ def expected(ins, ctx):
         if a is None or b is None:
             return None, 'operand line not implemented'
         return (minof([a, b]) if k == 'smaller' else maxof([a, b])), None
+    if k == 'w2sum':
+        w2 = ctx.an.cat.find(ctx.fr.year, 'w-2', 0) or ctx.an.cat.find(ctx.fr.year, 'w-2')
+        if w2 is None or f'box_{ins.box}' not in w2.field_map():
+            return None, f'Form W-2 has no box {ins.box}'
+        cnt = E('i', '1040.number_w-2', ty='int')
+        body = E('v', 'w-2:{n}.box_' + ins.box, ty='float')
+        return lin_of(E('sumn', cnt, E('idx', 'n', cnt, ty='int'), body, ty='float')), None
+    if k == 'addlisting':
+        names = sorted((n for n in ctx.fmap if re.fullmatch(re.escape(ins.a) + r'_amount_\d+', n)), key=lambda n: int(n.rsplit('_', 1)[1]))
+        if not names:
+            return None, f'no listing lines {ins.a}_amount_<k>'
+        tot = Lin(0)
+        for n in names:
+            a = ctx.line_atom(n)
+            if a is None:
+                return None, f'line {n} is not implemented'
+            tot = tot.add(a)
+        return tot, None
     if k == 'ratio':
         a, b = ctx.line_atom(ins.a), ctx.line_atom(ins.b)
         if a is None or b is None:
